@@ -1,13 +1,14 @@
 /-
-  Proofs/MixtureDMPerBranch.lean — what `MixedStabilizer.apply_measurement` *as coded* (every branch measured on its own)
-  does to the state `R = Σ_k w_k ρ(T_k)`, for every mixture and every number of qubits.  Split the mixture into the branches
+  Proofs/MixtureDMPerBranch.lean — HISTORICAL (`Mix.measureOld`): what `MixedStabilizer.apply_measurement` of graphiq *before
+  the repair of finding F2* (every branch measured on its own) did to the state `R = Σ_k w_k ρ(T_k)`, for every mixture and every number of qubits.  Split the mixture into the branches
   whose outcome is random (`R_rand`) and those whose outcome is deterministic (`R_det`).  Then
 
       Σ (measure q o m) = 2 · Π_o R_rand Π_o + R_det :
 
   the random branches are post-selected on the forced outcome `o` (and renormalised), the deterministic branches are left as they
   are *whatever their outcome* — i.e. measured non-selectively.  The density-matrix backend post-selects all of `R` on one
-  outcome.  The two agree when the branches agree (Proofs/MixtureDMMeasure); this is the exact shape of finding F2.
+  outcome.  The two agree when the branches agree (Proofs/MixtureDMMeasure); this is the exact shape of finding F2 (repaired by the joint
+  measurement `Mix.measure`, Proofs/MixtureDMJoint*.lean).
 -/
 import GraphiqModel.Proofs.MixtureDMMeasure
 namespace Graphiq
@@ -20,9 +21,9 @@ def detPart (q : Nat) (m : Mixture) : Mixture := m.filter fun x => !(x.2.pivot q
 
 /-- **per-branch measurement, as coded, on any mixture** -/
 theorem per_branch_measure_spec (n q : Nat) (hq : q < n) (o : Bool) : ∀ (m : Mixture), MixGood n m →
-    mixRho n (Mix.measure q o m).1
+    mixRho n (Mix.measureOld q o m).1
       = (2 : ℂ) • (projZ n q o * mixRho n (randomPart q m) * projZ n q o) + mixRho n (detPart q m)
-  | [], _ => by simp [Mix.measure, randomPart, detPart, mixRho_nil]
+  | [], _ => by simp [Mix.measureOld, randomPart, detPart, mixRho_nil]
   | (w, t) :: rest, hg => by
     obtain ⟨hn, hv, hr⟩ := hg.head
     have ih := per_branch_measure_spec n q hq o rest hg.tail
@@ -45,7 +46,7 @@ theorem per_branch_measure_spec (n q : Nat) (hq : q < n) (o : Bool) : ∀ (m : M
 /-- in particular, when no branch is random the code leaves the state untouched — also when the branches *disagree* on the
     outcome (then the density-matrix backend, which post-selects, ends somewhere else: finding F2) -/
 theorem per_branch_measure_all_det (n q : Nat) (hq : q < n) (o : Bool) (m : Mixture) (hg : MixGood n m)
-    (hd : ∀ x ∈ m, x.2.pivot q = none) : mixRho n (Mix.measure q o m).1 = mixRho n m := by
+    (hd : ∀ x ∈ m, x.2.pivot q = none) : mixRho n (Mix.measureOld q o m).1 = mixRho n m := by
   rw [per_branch_measure_spec n q hq o m hg]
   have e1 : randomPart q m = [] := by
     unfold randomPart
